@@ -1,7 +1,7 @@
 #!/bin/bash
 # tools/try_seed.sh <PROP> <seed dir>: apply a seeded change to /repo, run the property's check, always undo
+p=$1; d=$(realpath "$2")
 cd "$(dirname "$0")/.."
-p=$1; d=$2
 git -C /repo apply "$d/patch.diff" || { echo "patch does not apply"; exit 9; }
 out=$(python3-vt check $p 2>&1); rc=$?
 git -C /repo checkout -- .
